@@ -22,7 +22,7 @@ from mc.core.ctx import Res
 ID = "C04"
 LEVEL = "exploration"
 RULE = (
-    "all command sequences up to length L over 31 letters on 3 modes x 9 routines (x every legal linearisation answer for short "
+    "all command sequences up to length L over 33 letters on 3 modes (+1 created in mid-program) x 9 routines (x every legal linearisation answer for short "
     "sequences); a case is non-trivial when at least one routine returned an order different from the input order"
 )
 
@@ -53,16 +53,18 @@ def letters():
         ls.append(("FS", (i,)))  # op on mode i whose parameter is the measurement of mode i itself
     for i, j in itertools.combinations(range(N), 2):
         ls.append(("FB", (i, j)))  # two-mode op on (i, j) whose parameter is the measurement of mode i
+    ls.append(("NW", (N,)))  # creation of a further mode in mid-program (a command that takes no existing subsystem)
+    ls.append(("UN", (N,)))  # one-mode op on the created mode
     return ls
 
 
 LETTERS = letters()
-BASE = [l for l in LETTERS if l[0] not in ("FS", "FB")]  # the 25 letters without self-feed operations
+BASE = [l for l in LETTERS if l[0] not in ("FS", "FB", "NW", "UN")]  # the 25 letters without self-feed operations and mode creation
 
 
 def build(seq, distinct_classes=False, offset=0):
     """offset > 0: the register has `offset` deleted modes in front, the letters act on modes offset..offset+N-1"""
-    regs = [RegRef(i + offset) for i in range(N)]
+    regs = [RegRef(i + offset) for i in range(N + 1)]
     cmds = []
     k = 0
     for lab, ms in seq:
@@ -82,6 +84,12 @@ def build(seq, distinct_classes=False, offset=0):
             cmds.append(Command(ops.Dgate(regs[ms[0]].par, 0.0), [regs[ms[0]]]))
         elif lab == "FB":
             cmds.append(Command(ops.BSgate(regs[ms[0]].par, 0.0), [regs[ms[0]], regs[ms[1]]]))
+        elif lab == "NW":
+            cmds.append(Command(ops._New_modes(1), [regs[N]]))
+        elif lab == "UN":
+            cls = ONE_CLASSES[k % len(ONE_CLASSES)] if distinct_classes else ops.Rgate
+            k += 1
+            cmds.append(Command(cls(0.2), [regs[N]]))
     return regs, cmds
 
 
@@ -218,7 +226,7 @@ def routines(seq, res, case, chooser_mode):
     # 1. list_to_grid ---------------------------------------------------------------
     regs, cmds = build(seq)
     grid = pu.list_to_grid(cmds)
-    for w in range(N):
+    for w in range(N + 1):
         exp = []
         for k, (lab, ms) in enumerate(seq):
             wires = set(ms)  # FF letters sit on the measured wire and the target wire
@@ -227,7 +235,7 @@ def routines(seq, res, case, chooser_mode):
         got = grid.get(w, [])
         if [id(c) for c in got] != [id(c) for c in exp]:
             res.violation("C04|list_to_grid|wire-content", f"list_to_grid({fmt(seq)}) wire {w} holds {[str(c) for c in got]}", case)
-    extra = set(grid) - set(range(N))
+    extra = set(grid) - set(range(N + 1))
     if extra:
         res.violation("C04|list_to_grid|foreign-wire", f"list_to_grid({fmt(seq)}) produced wires {extra}", case)
 
@@ -369,7 +377,7 @@ def run(ctx):
     if ctx.exhaustive and ctx.n != expected:
         raise RuntimeError(f"enumerated {ctx.n}, closed form {expected}")
     ctx.cov["letters"] = len(LETTERS)
-    ctx.cov["bounds"] = {"plans (L, all linearisations, 31-letter alphabet)": [list(p) for p in plans], "modes": N}
+    ctx.cov["bounds"] = {"plans (L, all linearisations, 33-letter alphabet)": [list(p) for p in plans], "modes": N}
     ctx.assumptions += [
         "dependency reference: two commands must keep their order iff they share a target mode or one targets the mode whose measured value parametrises the other (O(L^2) pairwise check on the input)",
         "legal answers of topological_sort = all topological orders; of lexicographical_topological_sort = all orders obtained by repeatedly taking any available node of minimal key",
